@@ -140,7 +140,7 @@ Theorem C17_results_on_traces :
 Proof.
   intros evs outs tr sf rest E Hn.
   destruct (run_results gen_tables _ gen_tables_ok evs _ _ _ _ _ (reachg_init gen_tables outs) E Hn) as [_ H].
-  eapply Forall_impl; [|exact H]. cbn. intros en Hen x Hx. destruct (Hen x Hx) as [A BC].
+  eapply Forall_impl; [|exact H]. cbv beta. intros en Hen x Hx. destruct (Hen x Hx) as [A BC].
   split; [rewrite gen_term_spec; exact A|exact BC].
 Qed.
 Print Assumptions C17_results_on_traces.
